@@ -409,6 +409,9 @@ class FineGrainedBuildManager:
             is_stdlib_file(self.manager.options.abs_custom_typeshed_dir, path)
             or module in SENSITIVE_INTERNAL_MODULES
         ):
+            # The caller reprocesses all targets with errors next, as after an actual update.
+            # Forget the errors reported (and the files flushed) by a previous update.
+            self.manager.errors.reset()
             return [], (module, path), None
 
         manager = self.manager
